@@ -40,6 +40,15 @@ def neighbour_rules(ctx, nb, tag, store_leaf):
             ok = "Add" in ops and "Sub" not in ops and has_leaf(recv, "a3") and has_leaf(arg, "a3")
             ctx.check(ok, "C21.%s.neigh.upper" % tag, nb.path, "highest.verify(stored(highest.height()+1))", site=nb.loc(b), key="C21.%s.neigh.upper" % tag)
             upper += 1
+    # both sides are always decided: no accepting exit is reachable without branching on the
+    # presence of the lower AND of the upper neighbour (an early `return Ok(())` when one side is
+    # absent must not skip the other side)
+    from engine.rules import exit_sites, switches_on
+    acc = [x["block"] for x in exit_sites(nb) if x["kind"] in ("accept", "may")]
+    for arg, side in (("a2", "lower"), ("a3", "upper")):
+        sw = [b for b in switches_on(ctx, nb, [arg], discr_only=True) if nb.switch_discr_expr(b)[1][0] == "arg"]
+        bypass = nb.path_to([0], set(acc), removed_blocks=set(sw)) if sw else [0]
+        ctx.check(bool(sw) and bypass is None, "C21.%s.neigh.both-sides" % tag, nb.path, "every accepting path decides on the presence of the %s neighbour" % side, key="C21.%s.neigh.both-sides|%s" % (tag, side), path=nb.render_path(bypass) if bypass and len(bypass) > 1 else None)
     ctx.check(lower == 1 and upper == 1, "C21.%s.neigh.orientation" % tag, nb.path, "one lower-neighbour and one upper-neighbour verification, lower header as receiver", key="C21.%s.neigh.orientation" % tag)
 
 
